@@ -13,6 +13,7 @@ import numpy as np
 import scipy.signal as sps
 
 from sim import datagen
+from sim import env as _env
 from sim.canon import EventLog, h_array
 from sim.seams import CallSeam, FaultPlan
 
@@ -147,6 +148,7 @@ def gen_world(rng: random.Random, tier: str) -> dict:
             # degenerate but legal: the very same array object (and reference list object) given for two datasets
             w["ndat"][1], w["nch"][1], w["ref_ind"][1] = w["ndat"][0], w["nch"][0], list(w["ref_ind"][0])
             w["alias01"] = True
+    w["log_debug"] = rng.random() < 0.1  # the package logger at DEBUG level: must not change anything
     return w
 
 
@@ -602,6 +604,7 @@ def run_case(seed, tier="quick", case=None, known=()):
         ops_in = case["ops"]
         nops = len(ops_in)
     _TOL["float32_world"] = world.get("dtype") == "float32"
+    _env.set_log_debug(bool(world.get("log_debug")))
     arrays, owners = build_arrays(world)
     user_hash = [h_array(a) for a in owners]
     user_list = list(arrays)
